@@ -218,12 +218,22 @@ def stage_harness(pid, spec, tier, seed, log, extra_env=None):
     os.makedirs(outdir, exist_ok=True)
     for f in glob.glob(os.path.join(outdir, "cases_*")) + glob.glob(os.path.join(outdir, "summary.json")):
         os.remove(f)
-    env = dict(ENV, VERIF_SEED=str(seed), VERIF_TIER=tier, HX_OUT=WORK, RUST_BACKTRACE="0")
+    # temporary databases (SharedBuilder::with_temp_db, tempfile) are not removed when the
+    # process exits: keep them inside the work directory and delete them after the run
+    tmpd = os.path.join(outdir, "tmp")
+    shutil.rmtree(tmpd, ignore_errors=True)
+    for stale in glob.glob(os.path.join(outdir, "scratch-*")):
+        shutil.rmtree(stale, ignore_errors=True)
+    os.makedirs(tmpd, exist_ok=True)
+    env = dict(ENV, VERIF_SEED=str(seed), VERIF_TIER=tier, HX_OUT=WORK, RUST_BACKTRACE="0", TMPDIR=tmpd)
     env.update(extra_env or {})
     binp = os.path.join(HARNESS, "target", "release", spec["harness"])
     rc, out, dt = sh([binp] + spec.get("harness_args", []), cwd=ROOT,
                      timeout=spec.get("harness_timeout", {"quick": 1500, "thorough": 7200})[tier], env=env)
     log.append(f"[S3] {binp} rc={rc} {dt:.1f}s\n{out[-4000:]}")
+    shutil.rmtree(tmpd, ignore_errors=True)
+    for stale in glob.glob(os.path.join(outdir, "scratch-*")):
+        shutil.rmtree(stale, ignore_errors=True)
     summary = None
     sp = os.path.join(outdir, "summary.json")
     if os.path.exists(sp):
